@@ -121,6 +121,23 @@ def authorize (e : Env) (fn : String) (argc : Nat) (args : List String) (acl : A
             else if !isNumeric p.nonce then .error .nonce
             else .ok (addr, (args.drop 3).take (argc - 1), p.nonce)
 
+/-- `core/auth_deprecated.go: CheckSign`, kept "for backward compatibility" for methods that
+    authenticate themselves: `auth` = keys followed by signatures; **every** listed key must carry a
+    verifying ed25519 signature over `fn ++ args ++ keys` (a blank signature does not verify); the
+    access-control service must confirm the key list; only the grey list is consulted (the black
+    list is not — recorded in DESIGN §10 as an observation on this legacy helper, which is not one
+    of the three routes of C01). -/
+def checkSign (e : Env) (fn : String) (plain auth : List String) (acl : AclReply) : Except Err String :=
+  let signers := auth.length / 2
+  if signers = 0 then .error .unsigned else
+  let keys := auth.take signers
+  let sigs := (auth.drop signers).take signers
+  let msg := fn ++ String.join (plain ++ keys)
+  if !(keys.zip sigs).all (fun ks => verify .ed ks.1 msg (e.sigOf ks.2)) then .error .sig else
+  match acl with
+  | .status | .empty | .garbled => .error .acl
+  | .ok addr _ _ hasAccount _ grey => if hasAccount && grey then .error .listed else .ok addr
+
 /-! ### the specification side: who is entitled to act as `addr` -/
 
 /-- the number of distinct signer keys of the request that carry a genuine signature, of the right
